@@ -933,6 +933,8 @@ func (gqm *GroupQuotaManager) OnPodUpdate(newQuotaName, oldQuotaName string, new
 		if !shouldBeIgnored(newPod) {
 			if quotaInfo.IsPodExist(newPod) {
 				gqm.updatePodRequestNoLock(newQuotaName, oldPod, newPod)
+				// keep the cached object in step with what is accounted: MigratePod callers read it back
+				quotaInfo.updatePodIfPresent(newPod)
 			} else {
 				// it's means the pod creation is before quota creation.
 				gqm.updatePodCacheNoLock(newQuotaName, newPod, true)
